@@ -938,7 +938,7 @@ func ringLongOps(l ringLong) []rop {
 }
 
 func checkRingLong(l ringLong) *mc.Failure {
-	return mc.GuardT("ring-long", l, func() *mc.Failure {
+	return mc.GuardTL("ring-long", l, 20*time.Minute, func() *mc.Failure {
 		var joins [3]int64
 		inst, f := makeRingBFS(&rcfg{N: l.N}, &joins).Root(l.Root)
 		if f != nil {
@@ -1043,7 +1043,7 @@ func main() {
 			},
 		},
 		mc.Harness{
-			Name: "ring-long",
+			Name: "ring-long", HangLimit: 20 * time.Minute,
 			Explore: func(r *mc.Run) {
 				var cases []ringLong
 				for _, n := range mc.Pick(r, []int{8, 15, 16, 17, 18, 31, 32, 33, 34, 63, 64, 65}, []int{8, 15, 16, 17, 18, 31, 32, 33, 34, 63, 64, 65, 100, 127, 128, 129, 257}) {
